@@ -44,16 +44,38 @@ def coq_build():
     return rc == 0, out[-4000:]
 
 
+def strip_comments(text):
+    """removes (possibly nested) Coq comments, keeping line structure"""
+    out, depth, i = [], 0, 0
+    while i < len(text):
+        if text.startswith('(*', i):
+            depth += 1; i += 2; continue
+        if text.startswith('*)', i) and depth > 0:
+            depth -= 1; i += 2; continue
+        if depth == 0 or text[i] == '\n':
+            out.append(text[i])
+        i += 1
+    return ''.join(out)
+
+
 def scan_forbidden():
+    """Admitted/admit/Axiom/Parameter/Conjecture/guard switches anywhere; Variable/Hypothesis/Context outside a Section"""
     hits = []
     for sub in ('model', 'proofs', 'props'):
         d = os.path.join(COQ, sub)
         for fn in sorted(os.listdir(d)):
             if fn.endswith('.v'):
-                for i, line in enumerate(open(os.path.join(d, fn), encoding='utf-8'), 1):
-                    code = re.sub(r'\(\*.*?\*\)', '', line)
-                    if FORBIDDEN.search(code):
+                code = strip_comments(open(os.path.join(d, fn), encoding='utf-8').read())
+                depth = 0
+                for i, line in enumerate(code.split('\n'), 1):
+                    if FORBIDDEN.search(line):
                         hits.append('%s/%s:%d: %s' % (sub, fn, i, line.strip()))
+                    if re.match(r'\s*Section\s+\w+\s*\.', line):
+                        depth += 1
+                    elif re.match(r'\s*End\s+\w+\s*\.', line) and depth > 0:
+                        depth -= 1
+                    elif depth == 0 and re.match(r'\s*(Variables?|Hypothes[ie]s|Context)\b', line):
+                        hits.append('%s/%s:%d: outside a Section: %s' % (sub, fn, i, line.strip()))
     return hits
 
 
